@@ -231,3 +231,107 @@ Theorem C07_remove_all_spec :
   now s' = now s /\ enabled s' = enabled s /\ njobs s' = njobs s.
 Proof. exact remove_all_spec. Qed.
 Print Assumptions C07_remove_all_spec.
+(* ---- the tie to the source by translation (job classes): coq/gen/GenJobs.v is regenerated from src/eascheduler/jobs/
+   {base,job_onetime,job_countdown,job_datetime,event_handler}.py on every run (tools/gen_jobs.py); these theorems are
+   re-checked against it (coq/theories/GenJobsEq.v).  The job methods call into the GENERATED scheduler (GenSched.v)
+   closed with the GENERATED execute ([GenJobsEq.knot2]). *)
+From EAS Require Import SchedTrace.
+From EAS Require GenRt GenRtJobs GenJobsEq.
+Theorem C07_generated_jobs_recognised : EASGen.GenJobs.gen_jobs_status_v = EASGen.GenJobs.GenJobsOk.
+Proof. exact GenJobsEq.gen_jobs_recognised. Qed.
+Print Assumptions C07_generated_jobs_recognised.
+(* JobBase.set_next_run: the past test, then the model's state change and on_update callbacks *)
+Theorem C07_generated_set_next_run : forall E R j nx s,
+  EASGen.GenJobs.g_set_next_run E R j nx s =
+  match nx with
+  | Some v => if too_old s v then Some (s, GenRtJobs.JExc (GenRtJobs.JErr EPast))
+              else Some (set_next_run E j (Some v) s, GenRtJobs.JRet)
+  | None => Some (set_next_run E j None s, GenRtJobs.JRet)
+  end.
+Proof. exact GenJobsEq.gen_set_next_run_is_model. Qed.
+Print Assumptions C07_generated_set_next_run.
+(* JobCallbackHandler.run is Sched.run_cbs: every callback once, in order, each guarded separately *)
+Theorem C07_generated_callbacks_upd : forall E j cbs s,
+  EASGen.GenJobs.g_JobCallbackHandler_run E CbUpd j (map GenRtJobs.CbUser cbs) s =
+  Some (run_cbs E (fun cb => ECbUpd j cb (jstatus (jobs s j)) (jnext (jobs s j))) cbs s, GenRtJobs.JRet).
+Proof. exact GenJobsEq.gen_callbacks_run_is_run_cbs_upd. Qed.
+Print Assumptions C07_generated_callbacks_upd.
+Theorem C07_generated_callbacks_fin : forall E j cbs s,
+  EASGen.GenJobs.g_JobCallbackHandler_run E CbFin j (map GenRtJobs.CbUser cbs) s =
+  Some (run_cbs E (fun cb => ECbFin j cb) cbs s, GenRtJobs.JRet).
+Proof. exact GenJobsEq.gen_callbacks_run_is_run_cbs_fin. Qed.
+Print Assumptions C07_generated_callbacks_fin.
+(* the whole on_finished handler of a job: the store forgets the job first, then the user's callbacks *)
+Theorem C07_generated_on_finished : forall E j s,
+  EASGen.GenJobs.g_JobCallbackHandler_run E CbFin j (GenRtJobs.callbacks CbFin (jobs s j)) s =
+  Some (run_cbs E (fun cb => ECbFin j cb) (jcbf (jobs s j))
+          (if jstored (jobs s j) then set_store (store_remove (jkey (jobs s j)) (store s)) s else s), GenRtJobs.JRet).
+Proof. exact GenJobsEq.gen_on_finished_run. Qed.
+Print Assumptions C07_generated_on_finished.
+(* cancel / pause / resume on every reachable state: same outcome (Done <-> returned, Raised e <-> raised e), same state *)
+Theorem C07_generated_cancel_is_model : forall E fuel hs s j s' r,
+  Inv s -> GenJobsEq.LiveLinked s -> (j < njobs s)%nat ->
+  step_op E fuel hs s (OCancel j) = (s', r) -> r <> NoFuel ->
+  GenJobsEq.gen_job_finish E fuel j s = GenJobsEq.ret_of r s'.
+Proof. exact GenJobsEq.gen_cancel_is_model. Qed.
+Print Assumptions C07_generated_cancel_is_model.
+Theorem C07_generated_pause_is_model : forall E fuel hs s j s' r,
+  Inv s -> GenJobsEq.LiveLinked s -> (j < njobs s)%nat -> jkind (jobs s j) <> KOnce ->
+  step_op E fuel hs s (OPause j) = (s', r) -> r <> NoFuel ->
+  GenJobsEq.gen_job_pause E fuel j s = GenJobsEq.ret_of r s'.
+Proof. exact GenJobsEq.gen_pause_is_model. Qed.
+Print Assumptions C07_generated_pause_is_model.
+Theorem C07_generated_resume_is_model : forall E fuel hs s j s' r,
+  Inv s -> jkind (jobs s j) = KAt ->
+  step_op E fuel hs s (OResume j) = (s', r) -> r <> NoFuel ->
+  GenJobsEq.gen_job_resume E fuel j s = GenJobsEq.ret_of r s'.
+Proof. exact GenJobsEq.gen_resume_is_model. Qed.
+Print Assumptions C07_generated_resume_is_model.
+(* where the model is coarser than the file: the classes that do not support pause / resume *)
+Theorem C07_generated_pause_once : forall E fuel j s,
+  jkind (jobs s j) = KOnce -> GenJobsEq.gen_job_pause E fuel j s = Some (s, GenRtJobs.JExc GenRtJobs.JNotImplemented).
+Proof. exact GenJobsEq.gen_pause_once. Qed.
+Print Assumptions C07_generated_pause_once.
+Theorem C07_generated_resume_not_datetime : forall E fuel j s,
+  jkind (jobs s j) <> KAt -> GenJobsEq.gen_job_resume E fuel j s = Some (s, GenRtJobs.JExc GenRtJobs.JNotImplemented).
+Proof. exact GenJobsEq.gen_resume_not_datetime. Qed.
+Print Assumptions C07_generated_resume_not_datetime.
+(* the hypothesis LiveLinked ("a job that exists and is not finished - in particular a paused one - is linked") holds
+   in every reachable state *)
+Theorem C07_generated_live_linked_reachable : forall E fuel hs t0 en ops s rs,
+  run E fuel hs (init t0 en) ops = (s, rs) -> ~ In NoFuel rs -> GenJobsEq.LiveLinked s /\ Inv s.
+Proof. exact GenJobsEq.LiveLinked_reachable. Qed.
+Print Assumptions C07_generated_live_linked_reachable.
+(* register / remove of a callback *)
+Theorem C07_generated_register_is_model : forall E fuel hs s j w cb s' r,
+  step_op E fuel hs s (ORegister j w cb) = (s', r) ->
+  EASGen.GenJobs.g_JobCallbackHandler_register w j (GenRtJobs.CbUser cb) s = GenJobsEq.ret_of r s'.
+Proof. exact GenJobsEq.gen_register_is_model. Qed.
+Print Assumptions C07_generated_register_is_model.
+Theorem C07_generated_unregister_is_model : forall E fuel hs s j w cb s' r,
+  memb cb (GenJobsEq.cbs_of w (jobs s j)) = true ->
+  step_op E fuel hs s (OUnregister j w cb) = (s', r) ->
+  EASGen.GenJobs.g_JobCallbackHandler_remove w j (GenRtJobs.CbUser cb) s = GenJobsEq.ret_of r s'.
+Proof. exact GenJobsEq.gen_unregister_is_model. Qed.
+Print Assumptions C07_generated_unregister_is_model.
+(* link_scheduler + update_first of the job's class = the `first` / add_job part of JobBuilder._add in the model;
+   the hypotheses hold at every creation *)
+Theorem C07_generated_link_is_create_first : forall E fuel j s,
+  let s1 := set_job j (with_linked (jobs s j) true) s in
+  jlinked (jobs s j) = false -> Inv s1 -> ~ In j (queue s1) ->
+  match create_first E j (jobs s1 j) s1 with
+  | (s2, Done) => forall s3, add_job E fuel j s2 = Some s3 ->
+                    GenJobsEq.gen_link_scheduler E fuel j s = Some (s3, GenRtJobs.JRet)
+  | (s2, Raised e) => GenJobsEq.gen_link_scheduler E fuel j s = Some (s2, GenRtJobs.JExc (GenRtJobs.JErr e))
+  | (s2, NoFuel) => GenJobsEq.gen_link_scheduler E fuel j s = None
+  end.
+Proof. exact GenJobsEq.gen_link_is_create_first. Qed.
+Print Assumptions C07_generated_link_is_create_first.
+Theorem C07_generated_link_hyps_at_creation : forall hs b s,
+  Inv s -> jstatus b = Created -> jnext b = None -> jlinked b = false ->
+  let j := njobs s in
+  let s0 := GenJobsEq.alloc0 hs b s in
+  let s1 := set_job j (with_linked (jobs s0 j) true) s0 in
+  jlinked (jobs s0 j) = false /\ Inv s1 /\ ~ In j (queue s1).
+Proof. exact GenJobsEq.link_hyps_at_creation. Qed.
+Print Assumptions C07_generated_link_hyps_at_creation.
